@@ -7,7 +7,7 @@ root = os.path.join(os.path.dirname(os.path.abspath(__file__)), "..")
 res = {}
 for log in sys.argv[1:]:
     txt = open(log).read()
-    for blk in txt.split("=== ")[1:]:
+    for blk in re.split(r"(?m)^=== ", txt)[1:]:
         name = blk.split("\n")[0].strip()
         body = blk[len(name):]
         try:
